@@ -75,6 +75,12 @@ def l1_primitives():
         rt(lambda v, o: S.write_list(v, o, S.write_string_or_none), lambda i: S.read_list(i, S.read_string_or_none), lst)
     for lst in ([], [(1, 2)], [(1, 100), (200, 300), (1 << 31, 1 << 31)]):
         rt(lambda v, o: S.write_list_of_pairs(v, o, S.write_int), lambda i: S.read_list_of_pairs(i, S.read_int), lst)
+    # every list length up to 300 and the lengths around 2^16 (a length byte or a 2-byte length would show here)
+    for k in list(range(0, 301)) + [65535, 65536, 65537]:
+        rt(lambda v, o: S.write_list(v, o, S.write_int), lambda i: S.read_list(i, S.read_int), list(range(k)))
+        rt(lambda v, o: S.write_list_of_pairs(v, o, S.write_int), lambda i: S.read_list_of_pairs(i, S.read_int), [(10 * j + 1, 10 * j + 5) for j in range(k)])
+        if k <= 300:
+            rt(S.write_dict, S.read_dict, dict(("k%d" % j, j) for j in range(k)))
     vals = ["", "s", "x" * 300, 0, 1, -1, 65536, -65536, (1 << 31) - 1, -((1 << 31) - 1), (0, 0), (1, 2), (-1, 5), (3, -7), (-4, -4)]
     for v in vals:
         rt(S.write_dict, S.read_dict, {"k": v})
@@ -156,8 +162,8 @@ def ra_fields(IA, PolyAInfo):
         "assignment_id": [0, 1, (1 << 32) - 2],
         "read_id": ["", "r", "read/with:odd_chars|x", "x" * 65535],
         "genomic_region": [(0, 0), (1, 1), (1 << 31, 1 << 31)],
-        "exons": [[(5, 5)], [(1, 2), (4, 9), (20, 30)], [(1 << 30, (1 << 30) + 5)]],
-        "corrected_exons": [[], [(1001, 1800)], [(1, 2), (4, 9), (20, 30)]],
+        "exons": [[(5, 5)], [(1, 2), (4, 9), (20, 30)], [(1 << 30, (1 << 30) + 5)]] + [[(10 * j + 1, 10 * j + 5) for j in range(k)] for k in (254, 255, 256)],
+        "corrected_exons": [[], [(1001, 1800)], [(1, 2), (4, 9), (20, 30)]] + [[(10 * j + 1, 10 * j + 5) for j in range(k)] for k in (255, 256)],
         "multimapper": [True], "polyA_found": [True], "cage_found": [True],
         "polya_info": [PolyAInfo(3000, -1, -1, -1), PolyAInfo(-1, 999, -1, 1001), PolyAInfo(0, 0, 0, 0),
                        PolyAInfo(1, 2, 3, 4)],
